@@ -1,6 +1,6 @@
 package main
 
-// The schema under test: two paginated fields (int64 key / string key) over a harness-controlled list,
+// The schema under test: paginated fields (int64 key / string key / pointer nodes / no filter+sort fields) over a harness-controlled list,
 // each with 3 text attributes x 4 filter-field implementations and 3 sort attributes x 4 sort-field
 // implementations (plain, expensive, batch, batch-with-fallback).
 
@@ -210,6 +210,18 @@ func buildSchema() (s *graphql.Schema, err error) {
 		}
 		return out
 	}, optsS...)
+	// pointer nodes: the resolver returns []*ItemI, filter/sort fields are declared on the value type
+	optsP := append([]schemabuilder.FieldFuncOption{schemabuilder.Paginated}, filterOptsI()...)
+	optsP = append(optsP, sortOptsI()...)
+	q.FieldFunc("itemsP", func(ctx context.Context) []*ItemI {
+		src, _ := ctx.Value(itemsKey).([]Item)
+		out := make([]*ItemI, len(src))
+		for i, it := range src {
+			id, _ := strconv.ParseInt(it.Key, 10, 64)
+			out[i] = &ItemI{Id: id, T0: it.T[0], T1: it.T[1], T2: it.T[2], N0: it.N[0], N1: it.N[1], S0: it.S}
+		}
+		return out
+	}, optsP...)
 	// a paginated field with no filter or sort fields registered
 	q.FieldFunc("bareI", func(ctx context.Context) []ItemI {
 		src, _ := ctx.Value(itemsKey).([]Item)
